@@ -465,6 +465,47 @@ def c21_unknown_pool(k: int, ctx: int, extra: bool) -> bool:
     return finish(unknown_reported(extra, ci, name) == "ok")
 
 
+# end tags that no block registers (`endelse`, `endwhen`, `endfoo`, `endassign`): the unknown name is reported, either itself
+# or - when its stem is an unknown tag too - through the stem
+END_STEMS = ["else", "elsif", "when", "plural", "foo", "assign", "echo", "i", "break", "liquid", "x_y"]
+END_CTX = [["if", "S", "E", "endif"], ["if", "S", "endif", "E"], ["E"], ["if", "E", "endif"], ["case", "S", "E", "endcase"], ["S", "E"], ["for", "if", "S", "E", "endif", "endfor"],
+           ["if", "S", "E"], ["E", "S"], ["if", "else", "E", "endif"]]
+
+
+def unknown_end_sweep(extra, si):
+    stem = END_STEMS[si]
+    bad = []
+    for ctx in END_CTX:
+        names = [stem if x == "S" else ("end" + stem if x == "E" else x) for x in ctx]
+        env = env_of(extra)
+        if ("end" + stem) in [getattr(t, "end", None) for t in env.tags.values()] or any(("end" + stem) in (getattr(t, "end_block", ()) or ()) for t in env.tags.values()):
+            continue
+        toks = build([(TOKEN_TAG, n) for n in names])
+        try:
+            a = TagAnalysis(env=env, name="t", tokens=toks)
+        except Exception as e:
+            bad.append((names, "ERR:" + type(e).__name__))
+            continue
+        if ("end" + stem) not in a.unknown_tags and stem not in a.unknown_tags:
+            bad.append((names, {"unknown": sorted(a.unknown_tags), "unclosed": sorted(a.unclosed_tags), "unexpected": sorted(a.unexpected_tags)}))
+    return bad
+
+
+def c21_unknown_end_tags(si: int, extra: bool) -> bool:
+    """
+    pre: 0 <= si <= 10
+    post: _
+    """
+    if excluded("c21_unknown_end_tags", locals()):
+        return True
+    from vf.hx import cbool, cint, untraced
+    si, extra = cint(si, 0, 10), cbool(extra)
+    return finish(untraced(lambda: not unknown_end_sweep(extra, si)))
+
+
+DETAIL["c21_unknown_end_tags"] = lambda si, extra: {"end tag": "end" + END_STEMS[si], "failing (tags, report)": unknown_end_sweep(extra, si)[:3]}
+CONDITIONS.append({"fn": "c21_unknown_end_tags", "quick": 30, "thorough": 60, "sel_only": True})
+
 for _n in ("c21_unknown_sym2", "c21_unknown_pool"):
     DETAIL[_n] = (lambda name, ctx, extra: {"tokens": _ctx_pairs(pick(NCTX, ctx), name if isinstance(name, str) else UNK_POOL[name]),
                                             "result": unknown_reported(extra, pick(NCTX, ctx), name if isinstance(name, str) else UNK_POOL[name])})
